@@ -568,7 +568,7 @@ def generate():
                    b(d["cond_missing"]), b(d["cond_flag"]), b(d["trip_value"]), b(d["reset_value"]),
                    b(d["master_trip_first"]), b(d["params_at_call"]), b(d["getters_fresh"]),
                    b(d["setter_sets_sp"]), b(d["sp_change_trips"]), d["getters_note"].replace('"', "'")))
-    except Unsupported as u:
+    except (Unsupported, ValueError, TypeError, IndexError, KeyError, AttributeError, AssertionError, RecursionError) as u:   # any surprise in the source = fail closed
         return HEAD + failed("CanaryGen", str(u)) + BAD_DEFAULT
 
 
